@@ -453,9 +453,10 @@ def contracts():
                 continue
             cs.append(ReplaceInit(spelling, valkind))
     cs += [JoinArguments(), ArgumentsFor()]
-    from contracts import c13_ext, c13_runtime
+    from contracts import c13_ext, c13_runtime, c13_dag
     cs += c13_ext.contracts()
     cs += c13_runtime.contracts()
+    cs += c13_dag.contracts()
     return cs
 
 
